@@ -22,11 +22,17 @@ class Worker:
         self.verifier = histsim.Verifier(self.oracle, self.oracle2, self.presets, self.import_table)
         self.cold_checks = 0
 
-    def execute(self, ops, passive, warn_mode="ignore"):
+    def execute(self, ops, passive, warn_mode="ignore", cold=False):
+        if cold:
+            # a freshly started interpreter (harness hash seed) for this one history: slower (~70 ms), but
+            # the same bytes in the same program give the same execution down to memory addresses
+            import json
+            canon = json.loads(json.dumps(ops, sort_keys=True))
+            return procs.cold_history(canon, passive, env.HARNESS_HASHSEED, warn_mode)
         return self.sim.history(ops, passive, warn_mode=warn_mode)
 
-    def run_ops(self, ops, passive, probes=None, second=False, cold_seed=None, warn_mode="ignore"):
-        log = self.execute(ops, passive, warn_mode)
+    def run_ops(self, ops, passive, probes=None, second=False, cold_seed=None, warn_mode="ignore", cold=False):
+        log = self.execute(ops, passive, warn_mode, cold)
         viols = self.verifier.verify(ops, log, probes, second, warn_mode)
         if cold_seed is not None:
             # the same history in a cold interpreter of another hash seed must give the same log
@@ -119,6 +125,12 @@ def judge(W, prop, cfg, ops, viols, summary, base_seed, i):
         rep.update(seed=base_seed, run=i, engine="histsim")
         k = report.match_known(known, rep)
         if k is None:
+            if rep.get("replay_mode") == "server":
+                # seen, but not reproducible in a freshly started interpreter (depends on the state of the
+                # long-lived simulated-caller process): kept as a weak finding, the search goes on for a
+                # violation whose replay file reproduces exactly
+                summary["weak_violation"] = rep
+                return
             summary["violation"] = rep
             return
         summary["known"].append({"id": k["id"], "what": k["what"], "class": rep["violation_class"]})
@@ -174,6 +186,7 @@ def minimise(W, prop, cfg, ops, viol, budget=500):
     cls = viol.oracle
     passive = cfg["passive"]
     spent = [0]
+    mode = {"cold": True}
 
     def fails(cand):
         if spent[0] >= budget:
@@ -182,13 +195,18 @@ def minimise(W, prop, cfg, ops, viol, budget=500):
         try:
             log, viols = W.run_ops(cand, passive, second=(cls == "oracles_agree"),
                                    cold_seed=cfg.get("cold_seed") if cls == "history_eq_cold_interpreter" else None,
-                                   warn_mode=cfg.get("warn_mode", "ignore"))
+                                   warn_mode=cfg.get("warn_mode", "ignore"), cold=mode["cold"])
         except procs.HarnessError:
             return None
         v = _same(viols, cls)
         return (log, v) if v else None
 
     cur = [op for op in ops]
+    # Minimisation and replay execute every candidate in a freshly started interpreter, so that the
+    # replay file reproduces exactly (memory addresses included).  Only if the violation does not show
+    # there at all (behaviour that depends on the long-lived simulated-caller process) fall back to it.
+    if not fails(cur):
+        mode["cold"] = False
     # everything after the violating op is irrelevant
     cut = cur[:viol.idx + 1]
     if fails(cut):
@@ -238,6 +256,7 @@ def minimise(W, prop, cfg, ops, viol, budget=500):
     if not histsim.attributable(prop, v, cur, log):
         return None
     return {
+        "replay_mode": "cold" if mode["cold"] else "server",
         "property": prop, "cfg": dict(cfg, passive=passive), "ops": cur,
         "violation_class": cls, "violation": v.to_json(),
         "results": [_short(rec["r"]) for rec in log],
